@@ -349,6 +349,8 @@ def check_run(case, tup, cfg, ref, d, tag, mon, margins, resumed_from=None, stdo
     any_h5 = any(v > 0 for v in h5_cad.values())
 
     def upd(name, r):
+        if r != r:          # NaN never becomes a margin silently
+            r = float("inf")
         if name not in margins or r > margins[name]:
             margins[name] = r
 
@@ -426,11 +428,13 @@ def check_run(case, tup, cfg, ref, d, tag, mon, margins, resumed_from=None, stdo
             # printed with %15.5f / %12.9f: the deviation in excess of the printing half-width must vanish
             dx = float(np.abs(f["xyz"] - x).max()) if f["xyz"].shape == x.shape else float("inf")
             de = abs(f["E"] - e)
-            ex = max(0.0, dx - 5e-6 * (1 + 1e-6))
-            ee = max(0.0, de - 5e-10 * (1 + 1e-6))
+            # NaN policy: a printed frame is text; a non-finite coordinate or energy in it always violates (the excess
+            # is then inf), whatever the reference holds
+            ex = max(0.0, dx - 5e-6 * (1 + 1e-6)) if np.isfinite(dx) else float("inf")
+            ee = max(0.0, de - 5e-10 * (1 + 1e-6)) if np.isfinite(de) else float("inf")
             upd("xyz_coordinates_excess_over_print_rounding", ex / 1e-8)
             upd("xyz_energy_excess_over_print_rounding", ee / (1e-9 + 1e-9 * abs(e)))
-            if ex > 1e-8 or ee > 1e-9 + 1e-9 * abs(e):
+            if mdio.exceeds(ex, 1e-8) or mdio.exceeds(ee, 1e-9 + 1e-9 * abs(e)):
                 probs.append({"kind": "xyz", "what": "frame-values", "mol": mol, "label": f["label"], "dx": dx, "dE": de})
     # ---- screen
     lines = mdio.read_thermo_lines(stdout_path)
@@ -456,7 +460,7 @@ def check_run(case, tup, cfg, ref, d, tag, mon, margins, resumed_from=None, stdo
             r = max(_excess(T, rT, 0.005), _excess(Ek, rEk, _hw_e(rEk)), _excess(V, rV, _hw_e(rV)),
                     _excess(Et, rEk + rV, _hw_e(rEk + rV)))
             upd("thermo_line_excess_over_print_rounding", r)
-            if r > 1:
+            if mdio.exceeds(r, 1.0):
                 probs.append({"kind": "print", "what": "thermo-line-values", "step": s, "mol": mol, "ratio": r})
     # ---- checkpoints (wrapper on save_checkpoint) + final checkpoint file
     ck = [e["step_done"] for e in events if e.get("ev") == "call" and e.get("t") == "save_checkpoint"
@@ -486,11 +490,18 @@ def check_run(case, tup, cfg, ref, d, tag, mon, margins, resumed_from=None, stdo
 def _hw_e(x):
     """half-width of the rounding interval of the %e format (6 decimals of the mantissa)"""
     import math
+    if not math.isfinite(x):
+        return float("nan")
     return 0.0 if x == 0 else 0.5 * 10.0 ** (math.floor(math.log10(abs(x))) - 6)
 
 
 def _excess(printed, ref, hw):
-    return max(0.0, abs(printed - ref) - hw * (1 + 1e-6)) / (1e-9 * max(1.0, abs(ref)))
+    """NaN policy: a non-finite printed number, or a non-finite reference, always gives inf (violates)."""
+    import math
+    dev = abs(printed - ref)
+    if not (math.isfinite(dev) and math.isfinite(hw)):
+        return float("inf")
+    return max(0.0, dev - hw * (1 + 1e-6)) / (1e-9 * max(1.0, abs(ref)))
 
 
 def _inspect(cfg, d, tag):
